@@ -1,5 +1,94 @@
-import ErdosVerif.Model.TaskGraph
+import ErdosVerif.Lemmas.TaskLegal
+import ErdosVerif.Lemmas.CancelClosure
+/-!
+# C06 — task lifecycle is a legal state machine; cancellation is closed downstream
+
+Models: `Model/Task.lean` (every mutating call of the `Task` API),
+`Model/TaskGraph.lean` (`TaskGraph.cancel`).
+-/
 namespace ErdosVerif.C06
 open ErdosVerif.Model
-theorem placeholder : TState.virtual.val = 1 := rfl
+
+/-- **Legal step**: for every task state and every API call (`release`, `schedule`,
+`unschedule`, `start`, `step`, `finish`, `cancel`, `preempt`, `update_remaining_time`)
+with any arguments, the call either leaves the state alone (refused or no-op) or
+takes a step of the life-cycle relation `Legal`. -/
+theorem legal_step (t : TaskS) (c : TaskCall) (h : t.PreOK) : StepOK t.state (t.call c).1.state :=
+  call_legal t c h
+
+/-- The hypothesis of `legal_step` is an invariant of the API and holds initially. -/
+theorem pre_ok_invariant (t : TaskS) (c : TaskCall) (h : t.PreOK) : (t.call c).1.PreOK := call_preOK t c h
+
+/-- Along any sequence of API calls every consecutive pair of states is equal or legal. -/
+theorem legal_history (t : TaskS) (cs : List TaskCall) (h : t.PreOK) :
+    (cs.foldl (fun x c => (x.call c).1) t).PreOK ∧
+    ∀ (pre : List TaskCall) (c : TaskCall) (post : List TaskCall), cs = pre ++ c :: post →
+      StepOK (pre.foldl (fun x c => (x.call c).1) t).state
+             (((pre.foldl (fun x c => (x.call c).1) t).call c).1).state := by
+  have inv : ∀ (l : List TaskCall) (x : TaskS), x.PreOK → (l.foldl (fun x c => (x.call c).1) x).PreOK := by
+    intro l
+    induction l with
+    | nil => intro x hx; exact hx
+    | cons c r ih => intro x hx; exact ih _ (call_preOK x c hx)
+  refine ⟨inv cs t h, ?_⟩
+  intro pre c post _
+  exact call_legal _ c (inv pre t h)
+
+/-- COMPLETED and CANCELLED are final. -/
+theorem final (t : TaskS) (c : TaskCall) (h : t.PreOK)
+    (hf : t.state = .completed ∨ t.state = .cancelled) : (t.call c).1.state = t.state :=
+  final_states t c h hf
+
+/-- A task becomes CANCELLED only before it runs. -/
+theorem cancelled_only_before_running (t : TaskS) (c : TaskCall) (h : t.PreOK)
+    (hc : (t.call c).1.state = .cancelled) (hne : t.state ≠ .cancelled) :
+    t.state = .virtual ∨ t.state = .released ∨ t.state = .scheduled :=
+  Model.cancelled_only_before_running t c h hc hne
+
+/-- A cancelled task never starts: `start` on it is refused. -/
+theorem cancelled_never_starts (t : TaskS) (time fuzzed : Int) (h : t.state = .cancelled) :
+    (t.doStart time fuzzed).2 = some .valueError ∧ (t.doStart time fuzzed).1 = t := by
+  simp [TaskS.doStart, h]
+
+/-- The state numbering and `RELEASABLE_TASK_STATES` of the source are the model's. -/
+theorem tables_match :
+    Gen.taskStateTable = [TState.virtual, .released, .scheduled, .running, .preempted, .evicted,
+      .completed, .cancelled].map (fun s => (s.name, s.val)) ∧
+    Gen.releasableTaskStates = [TState.virtual.name, TState.scheduled.name, TState.preempted.name] :=
+  state_table_matches
+
+/-- **Cancellation is closed downstream**: when `TaskGraph.cancel(task)` returns,
+every child of every task it cancelled is CANCELLED as well, except a terminal
+(join) task that still has a parent which is not cancelled. -/
+theorem cancel_closure (g : GraphS) (n : Nat) (time : Int) (hwf : g.EdgesWF)
+    (herr : (g.cancel n time).err = none) :
+    ∀ c ∈ (g.cancel n time).cancelled, ∀ k ∈ g.kids c,
+      (g.cancel n time).g.stateOf k = .cancelled ∨
+      (g.terminalOf k = true ∧ k ≠ n ∧ ∃ p ∈ g.pars k, (g.cancel n time).g.stateOf p ≠ .cancelled) :=
+  GraphS.cancel_closed g n time hwf herr
+
+/-- **Frame**: nothing but the reported tasks changes; each reported task was
+VIRTUAL / RELEASED / SCHEDULED and is now CANCELLED. -/
+theorem cancel_frame (g : GraphS) (n : Nat) (time : Int) (herr : (g.cancel n time).err = none) :
+    ∀ k, (g.cancel n time).g.stateOf k = g.stateOf k ∨
+      (k ∈ (g.cancel n time).cancelled ∧ (g.cancel n time).g.stateOf k = .cancelled ∧
+       GraphS.Cancellable (g.stateOf k)) :=
+  GraphS.cancel_frame g n time herr
+
+/-! ### non-vacuity -/
+
+/-- A fresh task satisfies the hypothesis. -/
+example : ({ name := "T", conditional := false, terminal := false, prob := 1000, strategies := [],
+             profile := 0, deadline := 10 } : TaskS).PreOK := Or.inl rfl
+
+/-- The fork-in-branch graph `C→{B1→{X,Y}→J, B2→J}` (J terminal): cancelling `C`
+cancels all six tasks (the shape on which the repository's `break` used to stop). -/
+example :
+    let mk (nm : String) (term : Bool) : TaskS :=
+      { name := nm, conditional := false, terminal := term, prob := 1000, strategies := [], profile := 0, deadline := 10 }
+    let g : GraphS := ⟨"G", #[mk "C" false, mk "B1" false, mk "B2" false, mk "X" false, mk "Y" false, mk "J" true],
+      #[[1, 2], [3, 4], [5], [5], [5], []], #[[], [0], [0], [1], [1], [2, 3, 4]], [0, 1, 2, 3, 4, 5]⟩
+    (g.cancel 0 7).err = none ∧ (g.cancel 0 7).cancelled.length = 6 := by
+  decide
+
 end ErdosVerif.C06
